@@ -15,6 +15,8 @@ def probe_rule(i, p, decl):
         return "rule p%d { strings: %s condition: $a in (%d..%d) }" % (i, decl, p["lo"], p["hi"])
     if t == "count":
         return 'rule p%d { strings: %s condition: console.log("p%d=", #a) }' % (i, decl, i)
+    if t == "countin":
+        return 'rule p%d { strings: %s condition: console.log("p%d=", #a in (%d..%d)) }' % (i, decl, i, p["lo"], p["hi"])
     if t == "offset":
         return 'rule p%d { strings: %s condition: console.log("p%d=", @a[%d]) }' % (i, decl, i, p["i"])
     if t == "uint":
@@ -33,7 +35,7 @@ def g_probe(p, ep=None):
     if t == "ep":
         return "PEntry %s" % ("None" if ep is None else "(Some %d)" % ep)
     return {"at": lambda: "PAt %d" % p["x"], "in": lambda: "PIn %d %d" % (p["lo"], p["hi"]),
-            "count": lambda: "PCount", "offset": lambda: "POffset %d" % p["i"],
+            "count": lambda: "PCount", "countin": lambda: "PCountIn %d %d" % (p["lo"], p["hi"]), "offset": lambda: "POffset %d" % p["i"],
             "uint": lambda: "PUint %d %d" % (p["n"], p["x"]), "filesize": lambda: "PFilesize",
             "cs": lambda: "PChecksum %d %d" % (p["x"], p["n"])}[t]()
 
@@ -57,7 +59,7 @@ class C11(Prop):
             "matches, matched only) with the reading probes (uintXX, ranges, also beyond the last region) placed "
             "BEFORE the rule that needs strings — in fast mode they are evaluated before the regions are scanned; "
             "per case 4-9 "
-            "probe rules: `$a at X`, `$a in (lo..hi)`, `#a`, `@a[i]`, uint8/16/32(X) at region edges, `defined "
+            "probe rules: `$a at X`, `$a in (lo..hi)`, `#a`, `#a in (lo..hi)` (ranges ending just below a region start), `@a[i]`, uint8/16/32(X) at region edges, `defined "
             "filesize`, `entrypoint` (1/8 of the layouts hold a 96-byte ELF image in one region; expected = entry point "
             "of that region scanned alone + its base, in the three modes), hash.checksum32 over ranges inside one region, across adjacent regions, across a gap, past "
             "the last region. Compared with Scanner::scan_mem on each fetched region (rebased, concatenated) and with "
@@ -166,6 +168,14 @@ class C11(Prop):
         probes = [{"t": "count"}, {"t": "filesize"}]
         if has_image or rng.chance(1, 20):
             probes.append({"t": "ep"})
+        for _ in range(rng.range(0, 2)):
+            # `#a in (lo..hi)`: ranges ending just below / at / above a region start (a member may start exactly there)
+            lo = addr_near()
+            hi = rng.choice([r["start"] for r in regions] or [lo]) + rng.choice([-1, -1, 0, 1, -100, 3])
+            if hi >= lo:
+                probes.append({"t": "countin", "lo": lo, "hi": hi})
+            else:
+                probes.append({"t": "countin", "lo": max(0, hi), "hi": lo})
         for _ in range(rng.range(2, 7)):
             k = rng.below(7)
             if k == 0:
